@@ -17,7 +17,7 @@ def parse(line):
 
 def case_params(case):
     t = case.split()
-    if t[0] == "c14T":
+    if t[0] in ("c14T", "c14N"):
         n, b, e = int(t[1]), int(t[2]), int(t[3])
         return n, b, e
     tgt = int(t[1])
@@ -54,6 +54,8 @@ def compare(case, model, impl):
 
 def monitor(case, impl):
     """Direct restatement of the property on the implementation's observation."""
+    if "INNER-WRONG" in impl:
+        return ("nested-call", "a Search call made from inside a predicate of a running Search returned a wrong result: " + impl[-40:])
     pi = parse(impl)
     n, b, e = case_params(case)
     if pi is None:
@@ -103,6 +105,13 @@ def gen(rng, tier):
     big.append("c14T %d 0 0" % ((1 << 63) - 1))
     big.append("c14T -5 0 0")
     streams.append(("threshold-large", big))
+    # predicates that call Search themselves while the outer Search runs (re-entrancy)
+    ne = ["c14N %d %d %d" % (n, b, e) for n in range(0, 13) for b in range(0, n + 1) for e in sorted(set([b, min(b + 1, n), n]))]
+    for _ in range(40 if tier == "quick" else 2000):
+        n = rng.range(13, 1 << rng.range(4, 40))
+        b = rng.range(0, n)
+        ne.append("c14N %d %d %d" % (n, b, rng.choice([b, min(b + 1, n), min(b + rng.range(0, 50), n)])))
+    streams.append(("nested-search-in-predicates", ne))
     # concrete lists, ascending and descending, with duplicates
     ls = []
     cnt = 400 if tier == "quick" else 8000
